@@ -57,6 +57,8 @@ pub struct Shm {
     pub crash_prop: [u8; 8],
     pub hang_prop: [u8; 8],
     pub abort_prop: [u8; 8],
+    pub exit_prop: [u8; 8],
+    pub atexit_ran: u32,
     pub counters: [u64; N_COUNTERS],
     pub wlen: u32,
     pub slen: u32,
@@ -119,6 +121,8 @@ pub fn reset() {
     s.crash_prop = [0; 8];
     s.hang_prop = [0; 8];
     s.abort_prop = [0; 8];
+    s.exit_prop = [0; 8];
+    s.atexit_ran = 0;
     s.counters = [0; N_COUNTERS];
     s.wlen = 0;
     s.slen = 0;
